@@ -170,7 +170,7 @@ class FsShim:
         self.log.append(("write", label))
         if n == 0:
             return raw_write(data)
-        if self.write_ks == "all" and n <= 512:
+        if self.write_ks == "all" and n <= 4096:
             ks = list(range(n))
         else:
             ks = sorted({0, 1, n // 2, n - 1} & set(range(n)))
